@@ -8,7 +8,7 @@ the alphabet and every operand — no bound on the span, the number of variables
 
 THE FULL STATEMENT IS FALSE ON THE CODE AS IT STANDS.  Full statement (kept for the record):
 
-    theorem inv_step (h : Inv s) (op : Op) : Inv (step s op).1          -- FALSE
+    theorem inv_step (h : Inv s) (op : Op) : Inv (step cfg s op).1          -- FALSE
 
 `obj.A = [[1, 2], [3, 4], [5, 6]]` on a 3-period span: `np.array(value, dtype=…)` is 3×2, its `shape[0]` passes
 the length test, and `A` becomes two-dimensional (`inv_step_false_at_witness`; reproduced on the real code by
@@ -22,13 +22,15 @@ set_option linter.unusedVariables false
 namespace Fsic.C09
 open Fsic Fsic.Container
 
+variable {cfg : Cfg}
+
 instance (n : Nat) (ser : Series) : Decidable (ser.wf n) := by unfold Series.wf; infer_instance
 instance (s : Store) : Decidable (Container.Inv s) := by unfold Container.Inv; infer_instance
 
 /-! ## Frame: what no operation ever touches -/
 
 /-- Every operation extends the store: same span, index grown only at the end, dtypes of existing series kept. -/
-theorem step_ext (s : Store) (op : Op) : Ext s (step s op).1 := by
+theorem step_ext (s : Store) (op : Op) : Ext s (step cfg s op).1 := by
   cases op with
   | addVariable name v dtype => exact addVariable_ext s name v dtype
   | addAttribute name =>
@@ -53,21 +55,23 @@ theorem step_ext (s : Store) (op : Op) : Ext s (step s op).1 := by
       | some ser => exact assignWhole_ext hg v
       | none =>
         dsimp only
-        have h := (setValuesCore_all s v).1
-        generalize setValuesCore s v = r at h
+        have h := (setValuesCore_all (cfg := cfg) s v).1
+        generalize setValuesCore cfg s v = r at h
         obtain ⟨s', o⟩ := r
         cases o with
         | ok => exact h.trans (Ext.attrs s' _ _)
         | raised e => exact h
-  | setStrict b =>
+  | setStrict b alts =>
     simp only [step, setStrict]
-    cases hg : s.get "strict" with
-    | some ser => exact assignWhole_ext hg _
-    | none => exact Ext.attrs s _ _
+    split
+    · exact Ext.refl s
+    · cases hg : s.get "strict" with
+      | some ser => exact assignWhole_ext hg _
+      | none => exact Ext.attrs s _ _
   | badKey t => exact Ext.refl s
 
 /-- The span never changes. -/
-theorem step_span (s : Store) (op : Op) : (step s op).1.n = s.n := (step_ext s op).n
+theorem step_span (s : Store) (op : Op) : (step cfg s op).1.n = s.n := (step_ext (cfg := cfg) s op).n
 
 /-! ## The invariant -/
 
@@ -77,27 +81,33 @@ theorem inv_init (span : List Nat) (kind : SpanKind) (strict : Bool) : Container
   simp [init] at hp
 
 /-- A 3-period container with one int variable `A = [1, 1, 1]` … -/
-def witnessStore : Store := (step (init [0, 1, 2] .seq false) (.addVariable "A" (.scalar (.i 1)) none)).1
+def witnessStore : Store := (step Cfg.shipped (init [0, 1, 2] .seq false) (.addVariable "A" (.scalar (.i 1)) none)).1
 /-- … and `obj.A = [[1, 2], [3, 4], [5, 6]]`. -/
 def witnessOp : Op := .setAttr "A" (.nested [[.i 1, .i 2], [.i 3, .i 4], [.i 5, .i 6]]) []
 
-/-- **Negation of the full statement at a concrete witness**: the invariant holds before, the operation
-    succeeds, `A` ends up with shape (3, 2) — and is still `int64` (the dtype half is not affected). -/
+/-- **Negation of the full statement at a concrete witness, for the code as shipped** (`Cfg.shipped`: only
+    `shape[0]` is compared): the invariant holds before, the operation succeeds, `A` ends up with shape (3, 2) —
+    and is still `int64` (the dtype half is not affected). -/
 theorem inv_step_false_at_witness :
-    Container.Inv witnessStore ∧ (step witnessStore witnessOp).2 = .ok ∧
-    ¬ Container.Inv (step witnessStore witnessOp).1 ∧
-    (step witnessStore witnessOp).1.get "A" = some ⟨i8, [3, 2], [.i 1, .i 2, .i 3, .i 4, .i 5, .i 6]⟩ := by
+    Container.Inv witnessStore ∧ (step Cfg.shipped witnessStore witnessOp).2 = .ok ∧
+    ¬ Container.Inv (step Cfg.shipped witnessStore witnessOp).1 ∧
+    (step Cfg.shipped witnessStore witnessOp).1.get "A" = some ⟨i8, [3, 2], [.i 1, .i 2, .i 3, .i 4, .i 5, .i 6]⟩ := by
   decide
 
 /-- The witness is exactly what the guard excludes. -/
-example : ¬ witnessOp.flatFor witnessStore := by decide
+example : ¬ witnessOp.flatFor Cfg.shipped witnessStore := by decide
+
+/-- With the whole shape compared (`Cfg.fixed`, the candidate fix) the same assignment raises DimensionError and
+    changes nothing. -/
+example : (step Cfg.fixed witnessStore witnessOp).2 = .raised .dimension ∧
+    (step Cfg.fixed witnessStore witnessOp).1.vars = witnessStore.vars := by decide
 
 /-- **Invariant step (partial)**: every operation whose whole-series operands are not rectangular nested lists
     of outer length `len(span)` keeps every series one-dimensional with one element per period — whatever the
     operand is otherwise (scalar, list, tuple, range, ragged or other nested list, ndarray of any rank / length /
-    dtype), whether the operation succeeds or raises. -/
-theorem inv_step_partial {s : Store} (h : Container.Inv s) {op : Op} (hf : op.flatFor s) :
-    Container.Inv (step s op).1 := by
+    dtype), whether the operation succeeds or raises.  (For a configuration with `fullShape` the guard is empty.) -/
+theorem inv_step_partial {s : Store} (h : Container.Inv s) {op : Op} (hf : op.flatFor cfg s) :
+    Container.Inv (step cfg s op).1 := by
   cases op with
   | addVariable name v dtype => exact addVariable_inv h name v dtype
   | addAttribute name =>
@@ -120,69 +130,92 @@ theorem inv_step_partial {s : Store} (h : Container.Inv s) {op : Op} (hf : op.fl
     · exact h
     · cases hg : s.get "values" with
       | some ser =>
-        rcases hf with hf | hf
+        rcases hf with hf | hf | hf
+        · exact assignWhole_inv h hg (Or.inl hf)
         · rw [hg] at hf; cases hf
-        · exact assignWhole_inv h hg hf
+        · exact assignWhole_inv h hg (Or.inr hf)
       | none =>
         dsimp only
-        have h1 := (setValuesCore_all s v).2.1 h
-        generalize setValuesCore s v = r at h1
+        have h1 := (setValuesCore_all (cfg := cfg) s v).2.1 h
+        generalize setValuesCore cfg s v = r at h1
         obtain ⟨s', o⟩ := r
         cases o with
         | ok => exact h1
         | raised e => exact h1
-  | setStrict b =>
+  | setStrict b alts =>
     simp only [step, setStrict]
-    cases hg : s.get "strict" with
-    | some ser => exact assignWhole_inv h hg (by simp [Operand.flatFor])
-    | none => exact h
+    split
+    · exact h
+    · cases hg : s.get "strict" with
+      | some ser => exact assignWhole_inv h hg (Or.inr (by simp [Operand.flatFor]))
+      | none => exact h
   | badKey t => exact h
+
+theorem flatFor_of_fullShape (hc : cfg.fullShape = true) (s : Store) (op : Op) : op.flatFor cfg s := by
+  cases op <;> simp [Op.flatFor, hc]
+
+/-- **Invariant step, full strength** — for any configuration in which `__setattr__` compares the whole shape
+    with `(len(span),)` (the candidate fix; `Cfg.current.fullShape` is read off the code on every run): every
+    operation with every operand keeps every series one-dimensional with one element per period. -/
+theorem inv_step (hc : cfg.fullShape = true) {s : Store} (h : Container.Inv s) (op : Op) :
+    Container.Inv (step cfg s op).1 :=
+  inv_step_partial h (flatFor_of_fullShape hc s op)
 
 /-- Non-vacuity: a wrong-length list, a 2-D ndarray, a ragged list and a label-slice assignment all satisfy the
     guard on the witness store, and the invariant indeed holds after each of them. -/
-example : (Op.setAttr "A" (.list [.i 1, .i 2]) []).flatFor witnessStore ∧
-    (Op.setItem "A" (.ndarray ⟨i8, [3, 2], [.i 1, .i 2, .i 3, .i 4, .i 5, .i 6]⟩)).flatFor witnessStore ∧
-    (Op.setAttr "A" (.nested [[.i 1, .i 2], [.i 3]]) []).flatFor witnessStore ∧
-    Container.Inv (step witnessStore (.setLabelSlice "A" (some 0) (some 1) none (.list [.i 7, .i 8]))).1 ∧
-    (step witnessStore (.setLabelSlice "A" (some 0) (some 1) none (.list [.i 7, .i 8]))).1.get "A"
+example : (Op.setAttr "A" (.list [.i 1, .i 2]) []).flatFor Cfg.shipped witnessStore ∧
+    (Op.setItem "A" (.ndarray ⟨i8, [3, 2], [.i 1, .i 2, .i 3, .i 4, .i 5, .i 6]⟩)).flatFor Cfg.shipped witnessStore ∧
+    (Op.setAttr "A" (.nested [[.i 1, .i 2], [.i 3]]) []).flatFor Cfg.shipped witnessStore ∧
+    Container.Inv (step Cfg.shipped witnessStore (.setLabelSlice "A" (some 0) (some 1) none (.list [.i 7, .i 8]))).1 ∧
+    (step Cfg.shipped witnessStore (.setLabelSlice "A" (some 0) (some 1) none (.list [.i 7, .i 8]))).1.get "A"
       = some ⟨i8, [3], [.i 7, .i 8, .i 1]⟩ := by
   decide
 
 /-- The guard along a history (it is evaluated in the store each operation is applied to). -/
-def FlatHistory : Store → List Op → Prop
+def FlatHistory (cfg : Cfg) : Store → List Op → Prop
   | _, [] => True
-  | s, op :: ops => op.flatFor s ∧ FlatHistory (step s op).1 ops
+  | s, op :: ops => op.flatFor cfg s ∧ FlatHistory cfg (step cfg s op).1 ops
 
-def flatHistoryDec : (s : Store) → (ops : List Op) → Decidable (FlatHistory s ops)
+def flatHistoryDec (cfg : Cfg) : (s : Store) → (ops : List Op) → Decidable (FlatHistory cfg s ops)
   | _, [] => isTrue trivial
   | s, op :: ops =>
-    match (inferInstance : Decidable (op.flatFor s)), flatHistoryDec (step s op).1 ops with
+    match (inferInstance : Decidable (op.flatFor cfg s)), flatHistoryDec cfg (step cfg s op).1 ops with
     | isTrue h1, isTrue h2 => isTrue ⟨h1, h2⟩
     | isFalse h1, _ => isFalse (fun h => h1 h.1)
     | _, isFalse h2 => isFalse (fun h => h2 h.2)
 
-instance (s : Store) (ops : List Op) : Decidable (FlatHistory s ops) := flatHistoryDec s ops
+instance (cfg : Cfg) (s : Store) (ops : List Op) : Decidable (FlatHistory cfg s ops) := flatHistoryDec cfg s ops
 
 /-- **Every history** (induction over the operation list; no bound on its length): starting from a store that
     satisfies the invariant, after any sequence of guarded operations — successful or not — every series is
     one-dimensional with exactly one element per period. -/
-theorem inv_history_partial {s : Store} (h : Container.Inv s) (ops : List Op) (hf : FlatHistory s ops) :
-    Container.Inv (run s ops) := by
+theorem inv_history_partial {s : Store} (h : Container.Inv s) (ops : List Op) (hf : FlatHistory cfg s ops) :
+    Container.Inv (run cfg s ops) := by
   induction ops generalizing s with
   | nil => exact h
   | cons op ops ih => exact ih (inv_step_partial h hf.1) hf.2
 
+/-- **Every history, full strength** (same configuration hypothesis as `inv_step`): no guard at all. -/
+theorem inv_history (hc : cfg.fullShape = true) {s : Store} (h : Container.Inv s) (ops : List Op) :
+    Container.Inv (run cfg s ops) := by
+  induction ops generalizing s with
+  | nil => exact h
+  | cons op ops ih => exact ih (inv_step hc h op)
+
 /-- Non-vacuity: a five-operation history on a fresh container (create, overwrite, wrong length, label set,
-    bulk replace) meets the guard and ends in the expected state. -/
+    bulk replace) meets the guard and ends in the expected state; with the fix the former witness history is
+    harmless. -/
 example :
-    FlatHistory (init [0, 1, 2] .seq false)
+    FlatHistory Cfg.shipped (init [0, 1, 2] .seq false)
       [.addVariable "A" (.scalar (.i 1)) none, .setAttr "A" (.list [.i 4, .i 5, .i 6]) [],
        .setItem "A" (.list [.i 1]), .setLabel "A" 2 (.scalar (.i 9)),
        .replaceValues [("A", .scalar (.i 0)), ("B", .scalar (.i 1))]] ∧
-    (run (init [0, 1, 2] .seq false)
+    (run Cfg.shipped (init [0, 1, 2] .seq false)
       [.addVariable "A" (.scalar (.i 1)) none, .setAttr "A" (.list [.i 4, .i 5, .i 6]) [],
        .setItem "A" (.list [.i 1]), .setLabel "A" 2 (.scalar (.i 9))]).get "A"
-      = some ⟨i8, [3], [.i 4, .i 5, .i 9]⟩ := by
+      = some ⟨i8, [3], [.i 4, .i 5, .i 9]⟩ ∧
+    (run Cfg.fixed (init [0, 1, 2] .seq false) [.addVariable "A" (.scalar (.i 1)) none, witnessOp]).get "A"
+      = some ⟨i8, [3], [.i 1, .i 1, .i 1]⟩ := by
   decide
 
 /-! ## dtype: no guard needed -/
@@ -190,26 +223,26 @@ example :
 /-- **dtype is never lost**: after any operation with any operand, every variable that existed still exists and
     has the dtype it had (so, by `dtype_history`, the dtype it was created with). -/
 theorem dtype_step (s : Store) (op : Op) {name : Name} {ser : Series} (h : s.get name = some ser) :
-    ∃ ser', (step s op).1.get name = some ser' ∧ ser'.dtype = ser.dtype :=
+    ∃ ser', (step cfg s op).1.get name = some ser' ∧ ser'.dtype = ser.dtype :=
   (step_ext s op).dtypes name ser h
 
-theorem run_ext (s : Store) (ops : List Op) : Ext s (run s ops) := by
+theorem run_ext (s : Store) (ops : List Op) : Ext s (run cfg s ops) := by
   induction ops generalizing s with
   | nil => exact Ext.refl s
   | cons op ops ih => exact (step_ext s op).trans (ih _)
 
 /-- … and after any history. -/
 theorem dtype_history (s : Store) (ops : List Op) {name : Name} {ser : Series} (h : s.get name = some ser) :
-    ∃ ser', (run s ops).get name = some ser' ∧ ser'.dtype = ser.dtype :=
+    ∃ ser', (run cfg s ops).get name = some ser' ∧ ser'.dtype = ser.dtype :=
   (run_ext s ops).dtypes name ser h
 
 /-- The dtype at creation is what `add_variable` was asked for: an explicit `dtype=` wins, otherwise the
     container's default (ModelInterface) — and otherwise the operand's own dtype. -/
-example : ((step (init [0, 1] .seq false) (.addVariable "X" (.list [.i 1, .i 2]) (some .float))).1.get "X").map
+example : ((step Cfg.shipped (init [0, 1] .seq false) (.addVariable "X" (.list [.i 1, .i 2]) (some .float))).1.get "X").map
     (·.dtype) = some f8 := by decide
 
 /-- Declaration order is stable: the index only ever grows at its end. -/
-theorem index_step_prefix (s : Store) (op : Op) : ∃ extra, (step s op).1.index = s.index ++ extra :=
+theorem index_step_prefix (s : Store) (op : Op) : ∃ extra, (step cfg s op).1.index = s.index ++ extra :=
   (step_ext s op).index
 
 /-! ## Failed assignments -/
@@ -231,7 +264,7 @@ def Op.single : Op → Prop
     DuplicateNameError, position out of range → IndexError, strict → AttributeError, …) the store afterwards
     *is* the store before — every series, the index, the attribute list. -/
 theorem failed_assign_unchanged {s : Store} {op : Op} (hop : Op.single op) {e : Exc}
-    (h : (step s op).2 = .raised e) (he : e ≠ .valueConv) : (step s op).1 = s := by
+    (h : (step cfg s op).2 = .raised e) (he : e ≠ .valueConv) : (step cfg s op).1 = s := by
   cases op with
   | addVariable name v dtype => exact addVariable_failed h
   | setAttr name v alts => exact setAttr_failed h he
@@ -248,22 +281,22 @@ theorem failed_assign_unchanged {s : Store} {op : Op} (hop : Op.single op) {e : 
 
 /-- `add_variable` never changes anything when it raises, conversion errors included (it builds a fresh array). -/
 theorem failed_add_variable_unchanged {s : Store} {name : Name} {v : Operand} {dtype : Option Kind} {e : Exc}
-    (h : (step s (.addVariable name v dtype)).2 = .raised e) : (step s (.addVariable name v dtype)).1 = s :=
+    (h : (step cfg s (.addVariable name v dtype)).2 = .raised e) : (step cfg s (.addVariable name v dtype)).1 = s :=
   addVariable_failed h
 
 /-- Non-vacuity, four ways to not fit: wrong length, unknown name, duplicate name, position out of range. -/
-example : (step witnessStore (.setAttr "A" (.list [.i 1, .i 2]) [])).2 = .raised .dimension ∧
-    (step witnessStore (.setItem "Z" (.scalar (.i 1)))).2 = .raised .key ∧
-    (step witnessStore (.addVariable "A" (.scalar (.i 1)) none)).2 = .raised .duplicateName ∧
-    (step witnessStore (.setPos "A" 3 (.scalar (.i 1)))).2 = .raised .index ∧
-    (step witnessStore (.setPosSlice "A" none none none (.list [.i 1, .i 2]))).2 = .raised .valueShape := by
+example : (step Cfg.shipped witnessStore (.setAttr "A" (.list [.i 1, .i 2]) [])).2 = .raised .dimension ∧
+    (step Cfg.shipped witnessStore (.setItem "Z" (.scalar (.i 1)))).2 = .raised .key ∧
+    (step Cfg.shipped witnessStore (.addVariable "A" (.scalar (.i 1)) none)).2 = .raised .duplicateName ∧
+    (step Cfg.shipped witnessStore (.setPos "A" 3 (.scalar (.i 1)))).2 = .raised .index ∧
+    (step Cfg.shipped witnessStore (.setPosSlice "A" none none none (.list [.i 1, .i 2]))).2 = .raised .valueShape := by
   decide
 
 /-- The exclusion of conversion errors is necessary: `obj['A'][:] = [7, 'x', 9]` on an int series raises
     ValueError *after* NumPy has stored the 7 (the model reproduces this; the real code is compared on it). -/
 theorem conversion_failure_may_write :
-    (step witnessStore (.setPosSlice "A" none none none (.list [.i 7, .s "x", .i 9]))).2 = .raised .valueConv ∧
-    (step witnessStore (.setPosSlice "A" none none none (.list [.i 7, .s "x", .i 9]))).1.get "A"
+    (step Cfg.shipped witnessStore (.setPosSlice "A" none none none (.list [.i 7, .s "x", .i 9]))).2 = .raised .valueConv ∧
+    (step Cfg.shipped witnessStore (.setPosSlice "A" none none none (.list [.i 7, .s "x", .i 9]))).1.get "A"
       = some ⟨i8, [3], [.i 7, .i 1, .i 1]⟩ := by
   decide
 
@@ -354,21 +387,44 @@ theorem size_counts_values {s : Store} (h : Container.Inv s) (hx : s.extraSize =
   rw [sum_const_length hrows, hl, size_eq, hx, Nat.add_zero]
 
 /-- Non-vacuity: two variables of different dtype over three periods. -/
-example : valuesRows (run (init [0, 1, 2] .seq false)
+example : valuesRows (run Cfg.shipped (init [0, 1, 2] .seq false)
       [.addVariable "A" (.scalar (.i 1)) none, .addVariable "B" (.list [.b true, .b false, .b true]) none])
       = [[.i 1, .i 1, .i 1], [.b true, .b false, .b true]] ∧
-    size (run (init [0, 1, 2] .seq false)
+    size (run Cfg.shipped (init [0, 1, 2] .seq false)
       [.addVariable "A" (.scalar (.i 1)) none, .addVariable "B" (.list [.b true, .b false, .b true]) none]) = 6 := by
   decide
 
 /-! ## strict -/
 
+theorem mem_appendNew {xs : List Name} {x a : Name} (h : a ∈ appendNew xs x) : a ∈ xs ∨ a = x := by
+  unfold appendNew at h
+  split at h
+  · exact Or.inl h
+  · rcases List.mem_append.mp h with h' | h'
+    · exact Or.inl h'
+    · right; simpa using h'
+
+theorem not_index_of_get_none {s : Store} {name : Name} (hg : s.get name = none) :
+    s.index.contains name = false := by
+  by_cases hc : name ∈ s.index
+  · obtain ⟨ser, hser⟩ := get_of_index hc; rw [hg] at hser; cases hser
+  · simpa using hc
+
+/-- A name that is neither a variable nor an attribute passes the strict guard only if it is exempt. -/
+theorem exempt_of_not_blocked {s : Store} {name : Name} (hs : s.strict = true)
+    (hb : ¬ strictBlocks cfg s name = true) (hi : s.index.contains name = false)
+    (ha : s.attrs.contains name = false) : name ∈ cfg.strictExempt := by
+  cases he : cfg.strictExempt.contains name with
+  | true => simpa using he
+  | false => exact absurd (strictBlocks_true hs he hi ha) hb
+
 /-- **Under `strict=True` no assignment creates a new attribute.**  After any operation other than
     `add_variable` / `add_attribute` (the two sanctioned ways), every entry of the attribute list was there before —
-    except the bookkeeping entry `'strict'` that the first use of the `strict` property itself records. -/
+    except the bookkeeping entries for the class properties the guard exempts by name (`cfg.strictExempt`: as
+    shipped only `'strict'`, whose first use through `obj.strict = …` records the name). -/
 theorem strict_no_new_attribute {s : Store} (hs : s.strict = true) {op : Op}
     (hop : match op with | .addVariable .. => False | .addAttribute .. => False | _ => True) :
-    ∀ a ∈ (step s op).1.attrs, a ∈ s.attrs ∨ a = "strict" := by
+    ∀ a ∈ (step cfg s op).1.attrs, a ∈ s.attrs ∨ a ∈ cfg.strictExempt := by
   intro a ha
   cases op with
   | addVariable name v dtype => exact absurd hop (by simp)
@@ -383,42 +439,40 @@ theorem strict_no_new_attribute {s : Store} (hs : s.strict = true) {op : Op}
       | none =>
         rw [hg] at ha
         dsimp only at ha
-        by_cases h1 : (name == "strict") = true
-        · rw [if_pos h1] at ha
-          simp only [appendNew] at ha
+        have hidx := not_index_of_get_none hg
+        cases hat : s.attrs.contains name with
+        | true =>
+          -- an existing attribute: nothing is added
           split at ha
-          · exact Or.inl ha
-          · rcases List.mem_append.mp ha with h' | h'
+          · rcases mem_appendNew ha with h' | h'
             · exact Or.inl h'
-            · right; simp at h'; rw [h']; simpa using h1
-        · rw [if_neg h1] at ha
-          by_cases h2 : s.attrs.contains name = true
-          · rw [if_pos h2] at ha; exact Or.inl ha
-          · -- not blocked, not a variable, not an attribute, not 'strict': impossible under strict
-            exfalso
-            have hidx : s.index.contains name = false := by
-              have := get_none_of_not_index (s := s) (name := name)
-              by_cases hc : name ∈ s.index
-              · obtain ⟨ser, hser⟩ := get_of_index hc; rw [hg] at hser; cases hser
-              · simpa using hc
-            apply hb
-            simp only [Bool.not_eq_true] at h1 h2
-            exact strictBlocks_true hs h1 hidx h2
-  | setItem name v => rw [show (step s (.setItem name v)) = setItem s name v from rfl, (setItem_attrs _ _ _).1] at ha; exact Or.inl ha
-  | setPos name i v => rw [show (step s (.setPos name i v)) = setPos s name i v from rfl, (setPos_attrs _ _ _ _).1] at ha; exact Or.inl ha
+            · left; rw [h']; simpa using hat
+          · simp only [hat, if_true] at ha; exact Or.inl ha
+        | false =>
+          have hex := exempt_of_not_blocked hs hb hidx hat
+          split at ha
+          · rcases mem_appendNew ha with h' | h'
+            · exact Or.inl h'
+            · right; rw [h']; exact hex
+          · simp only [hat, Bool.false_eq_true, if_false] at ha
+            rcases List.mem_append.mp ha with h' | h'
+            · exact Or.inl h'
+            · right; simp at h'; rw [h']; exact hex
+  | setItem name v => rw [show (step cfg s (.setItem name v)) = setItem cfg s name v from rfl, (setItem_attrs _ _ _).1] at ha; exact Or.inl ha
+  | setPos name i v => rw [show (step cfg s (.setPos name i v)) = setPos s name i v from rfl, (setPos_attrs _ _ _ _).1] at ha; exact Or.inl ha
   | setPosSlice name a' b st v =>
-    rw [show (step s (.setPosSlice name a' b st v)) = setPosSlice s name a' b st v from rfl,
+    rw [show (step cfg s (.setPosSlice name a' b st v)) = setPosSlice s name a' b st v from rfl,
       (setPosSlice_attrs _ _ _ _ _ _).1] at ha
     exact Or.inl ha
   | setLabel name l v =>
-    rw [show (step s (.setLabel name l v)) = setLabel s name l v from rfl, (setLabel_all _ _ _ _).2.2.2.1] at ha
+    rw [show (step cfg s (.setLabel name l v)) = setLabel s name l v from rfl, (setLabel_all _ _ _ _).2.2.2.1] at ha
     exact Or.inl ha
   | setLabelSlice name a' b st v =>
-    rw [show (step s (.setLabelSlice name a' b st v)) = setLabelSlice s name a' b st v from rfl,
+    rw [show (step cfg s (.setLabelSlice name a' b st v)) = setLabelSlice s name a' b st v from rfl,
       (setLabelSlice_all _ _ _ _ _ _).2.2.2.1] at ha
     exact Or.inl ha
   | replaceValues kvs =>
-    rw [show (step s (.replaceValues kvs)) = replaceValues s kvs from rfl, (replaceValues_attrs _ _).1] at ha
+    rw [show (step cfg s (.replaceValues kvs)) = replaceValues cfg s kvs from rfl, (replaceValues_attrs _ _).1] at ha
     exact Or.inl ha
   | setValues v alts =>
     simp only [step, setValues] at ha
@@ -430,46 +484,41 @@ theorem strict_no_new_attribute {s : Store} (hs : s.strict = true) {op : Op}
       | none =>
         rw [hg] at ha
         dsimp only at ha
-        have hc := (setValuesCore_all s v).2.2.1
-        generalize setValuesCore s v = r at ha hc
+        have hc := (setValuesCore_all (cfg := cfg) s v).2.2.1
+        generalize setValuesCore cfg s v = r at ha hc
         obtain ⟨s', o⟩ := r
         cases o with
         | raised e => dsimp only at ha hc; rw [hc] at ha; exact Or.inl ha
         | ok =>
           dsimp only at ha hc
-          -- not blocked under strict and not a variable: 'values' is already in the attribute list
-          have hidx : s.index.contains "values" = false := by
-            by_cases hc' : "values" ∈ s.index
-            · obtain ⟨ser, hser⟩ := get_of_index hc'; rw [hg] at hser; cases hser
-            · simpa using hc'
-          have hin : s.attrs.contains "values" = true := by
-            by_cases h2 : s.attrs.contains "values" = true
-            · exact h2
-            · exfalso; apply hb
-              simp only [Bool.not_eq_true] at h2
-              exact strictBlocks_true hs (by decide) hidx h2
           rw [hc] at ha
-          simp only [appendNew, hin, if_true] at ha
-          exact Or.inl ha
-  | setStrict b =>
+          rcases mem_appendNew ha with h' | h'
+          · exact Or.inl h'
+          · cases hat : s.attrs.contains "values" with
+            | true => left; rw [h']; simpa using hat
+            | false => right; rw [h']; exact exempt_of_not_blocked hs hb (not_index_of_get_none hg) hat
+  | setStrict b alts =>
     simp only [step, setStrict] at ha
-    cases hg : s.get "strict" with
-    | some ser => rw [hg] at ha; rw [(assignWhole_attrs _ _ _ _).1] at ha; exact Or.inl ha
-    | none =>
-      rw [hg] at ha
-      simp only [appendNew] at ha
-      split at ha
-      · exact Or.inl ha
-      · rcases List.mem_append.mp ha with h' | h'
+    split at ha
+    · exact Or.inl ha
+    · rename_i hb
+      cases hg : s.get "strict" with
+      | some ser => rw [hg] at ha; rw [(assignWhole_attrs _ _ _ _).1] at ha; exact Or.inl ha
+      | none =>
+        rw [hg] at ha
+        dsimp only at ha
+        rcases mem_appendNew ha with h' | h'
         · exact Or.inl h'
-        · right; simpa using h'
+        · cases hat : s.attrs.contains "strict" with
+          | true => left; rw [h']; simpa using hat
+          | false => right; rw [h']; exact exempt_of_not_blocked hs hb (not_index_of_get_none hg) hat
   | badKey t => exact Or.inl ha
 
 /-- **Updates of existing names keep working**: on a variable, `obj.name = v` does exactly the whole-series
     assignment, whatever `strict` is; on an existing attribute it is a plain attribute update. -/
 theorem strict_existing_names_work (s : Store) (name : Name) (v : Operand) (alts : List Name) :
-    (∀ ser, s.get name = some ser → setAttr s name v alts = assignWhole s name ser v) ∧
-    (s.get name = none → s.attrs.contains name = true → name ≠ "strict" → setAttr s name v alts = (s, .ok)) := by
+    (∀ ser, s.get name = some ser → setAttr cfg s name v alts = assignWhole cfg s name ser v) ∧
+    (s.get name = none → s.attrs.contains name = true → name ≠ "strict" → setAttr cfg s name v alts = (s, .ok)) := by
   constructor
   · intro ser hg
     have hmem : name ∈ s.index := index_of_get hg
@@ -480,35 +529,61 @@ theorem strict_existing_names_work (s : Store) (name : Name) (v : Operand) (alts
 
 /-- **`add_variable` keeps working**: its effect does not depend on `strict` at all. -/
 theorem strict_add_variable_works (s : Store) (b : Bool) (name : Name) (v : Operand) (dtype : Option Kind) :
-    addVariable { s with strict := b } name v dtype =
-      ({ (addVariable s name v dtype).1 with strict := b }, (addVariable s name v dtype).2) := by
+    addVariable cfg { s with strict := b } name v dtype =
+      ({ (addVariable cfg s name v dtype).1 with strict := b }, (addVariable cfg s name v dtype).2) := by
   rw [addVariable_eq, addVariable_eq]
-  have : addVarResult { s with strict := b } name v dtype = addVarResult s name v dtype := rfl
+  have : addVarResult cfg { s with strict := b } name v dtype = addVarResult cfg s name v dtype := rfl
   rw [this]
-  cases addVarResult s name v dtype <;> rfl
+  cases addVarResult cfg s name v dtype <;> rfl
 
 /-- **A near-miss name is reported with the closest variable**: under strict, assigning to a name that is neither
-    a variable nor an attribute changes nothing and raises AttributeError carrying the single closest variable
-    name (`alts` = what `get_closest_match` returns: `difflib` over the lower-cased variable names), a bare
-    AttributeError when there is none, NotImplementedError when several names tie. -/
-theorem strict_reports_closest {s : Store} (hs : s.strict = true) {name : Name} (hn : name ≠ "strict")
+    a variable nor an attribute (nor an exempt property name) changes nothing and raises AttributeError carrying
+    the single closest variable name (`alts` = what `get_closest_match` returns: `difflib` over the lower-cased
+    variable names), a bare AttributeError when there is none, NotImplementedError when several names tie. -/
+theorem strict_reports_closest {s : Store} (hs : s.strict = true) {name : Name} (hn : name ∉ cfg.strictExempt)
     (hi : name ∉ s.index) (ha : name ∉ s.attrs) (v : Operand) :
-    (∀ c, setAttr s name v [c] = (s, .raised (.attribute (some c)))) ∧
-    setAttr s name v [] = (s, .raised (.attribute none)) ∧
-    (∀ c d rest, setAttr s name v (c :: d :: rest) = (s, .raised .notImplemented)) := by
-  have hb : strictBlocks s name = true :=
+    (∀ c, setAttr cfg s name v [c] = (s, .raised (.attribute (some c)))) ∧
+    setAttr cfg s name v [] = (s, .raised (.attribute none)) ∧
+    (∀ c d rest, setAttr cfg s name v (c :: d :: rest) = (s, .raised .notImplemented)) := by
+  have hb : strictBlocks cfg s name = true :=
     strictBlocks_true hs (by simpa using hn) (by simpa using hi) (by simpa using ha)
   refine ⟨fun c => ?_, ?_, fun c d rest => ?_⟩ <;> simp [setAttr, hb, strictError]
+
+/-- **The values setter under strict** works exactly when the guard exempts the name `values`: then
+    `obj.values = v` is the plain bulk replacement … -/
+theorem strict_values_setter_works (hex : cfg.strictExempt.contains "values" = true) (s : Store) (v : Operand)
+    (alts : List Name) (hg : s.get "values" = none) :
+    (setValues cfg s v alts).2 = (setValuesCore cfg s v).2 := by
+  have hb : strictBlocks cfg s "values" = false := by
+    unfold strictBlocks
+    rw [hex]
+    rfl
+  simp only [setValues, hb, hg]
+  generalize setValuesCore cfg s v = r
+  obtain ⟨s', o⟩ := r
+  cases o <;> rfl
+
+/-- … and is FALSE for the code as shipped: in a strict container whose `values` setter has not been used before,
+    `obj.values = 0` raises AttributeError and changes nothing (key `strict-blocks-values-setter`); with the
+    candidate fix the same assignment succeeds. -/
+theorem strict_values_setter_blocked_at_witness :
+    (let s := (step Cfg.shipped (init [0, 1] .seq true) (.addVariable "A" (.scalar (.i 1)) none)).1
+     ((step Cfg.shipped s (.setValues (.scalar (.i 0)) ["A"])).2,
+      (step Cfg.shipped s (.setValues (.scalar (.i 0)) ["A"])).1.get "A",
+      (step Cfg.fixed s (.setValues (.scalar (.i 0)) ["A"])).2,
+      (step Cfg.fixed s (.setValues (.scalar (.i 0)) ["A"])).1.get "A"))
+    = (.raised (.attribute (some "A")), some ⟨i8, [2], [.i 1, .i 1]⟩, .ok, some ⟨i8, [2], [.i 0, .i 0]⟩) := by
+  decide
 
 /-- Non-vacuity: strict container with variable `A`; `obj.Aa = 1` is refused and points to `A`, `obj.A = 5` and
     `add_variable('B', …)` work. -/
 example :
-    (step (step (step (init [0, 1] .seq true) (.addVariable "A" (.scalar (.i 1)) none)).1
+    (step Cfg.shipped (step Cfg.shipped (step Cfg.shipped (init [0, 1] .seq true) (.addVariable "A" (.scalar (.i 1)) none)).1
       (.setAttr "Aa" (.scalar (.i 1)) ["A"])).1 (.setAttr "A" (.scalar (.i 5)) [])).1.get "A"
       = some ⟨i8, [2], [.i 5, .i 5]⟩ ∧
-    (step (step (init [0, 1] .seq true) (.addVariable "A" (.scalar (.i 1)) none)).1
+    (step Cfg.shipped (step Cfg.shipped (init [0, 1] .seq true) (.addVariable "A" (.scalar (.i 1)) none)).1
       (.setAttr "Aa" (.scalar (.i 1)) ["A"])).2 = .raised (.attribute (some "A")) ∧
-    (step (step (init [0, 1] .seq true) (.addVariable "A" (.scalar (.i 1)) none)).1
+    (step Cfg.shipped (step Cfg.shipped (init [0, 1] .seq true) (.addVariable "A" (.scalar (.i 1)) none)).1
       (.addVariable "B" (.scalar (.b true)) none)).2 = .ok := by
   decide
 
